@@ -207,9 +207,11 @@ def run(ctx):
         f_hist = [ex.submit(ctx.tlc_must_hold, "Changelog", h, workers=2 if quick else 6, want_tags={"CASE"}, java_opts=cc.jopts(ctx)) for h in hjobs]
         f_neg = [ex.submit(neg_control, ctx, bug, want) for bug, want in NEG_CONTROLS]
         f_hneg = [ex.submit(hist_neg_control, ctx, bug, want) for bug, want in cc.HIST_NEG]
+        f_reuse = ex.submit(cc.reuse_controls, ctx)
         r = f_bnd.result()
         r_hist = [f.result() for f in f_hist]
         ctx.extra["spec_negative_controls"] = {bug: f.result() for (bug, _), f in zip(NEG_CONTROLS + cc.HIST_NEG, f_neg + f_hneg)}
+        ctx.extra["spec_negative_controls"].update(f_reuse.result())
     ctx.tlc_runs.sort(key=lambda x: (-x["distinct"], str(x["violated"])))
     cases = [c for c in r.printed.get("CASE", []) if isinstance(c, dict)]
     if f_bnd2 is not None:          # thorough: 3 blocks with <= 1 separating blank line + 2 blocks with <= 2
